@@ -1,5 +1,7 @@
-(* Python's == on loaded nodes (Diff.node_eq) coincides with the spec's data
-   equality (C06Spec.data_eq) on well-formed documents without explicit tags. *)
+(* The differ's value comparison Differ._same_data (Diff.val_eq) coincides with
+   the spec's data equality (C06Spec.data_eq) on well-formed documents - tags
+   included (the repair of finding F1; before it values were compared with
+   Python's ==, which is identity on TaggedScalars and ignores container tags). *)
 From Coq Require Import List Ascii String ZArith NArith QArith Bool Arith Lia.
 From YP Require Import Outcome PyStr PyVal Doc Diff C06Spec DiffBase.
 Import ListNotations.
@@ -15,43 +17,29 @@ Proof.
     try (apply String.eqb_eq in H1; apply String.eqb_eq in H2; subst; apply String.eqb_refl).
 Qed.
 
-Lemma untagged_tag : forall n, untagged n = true -> tag (node_info n) = None.
-Proof. intros n H. destruct n; simpl in *; destruct (tag i); auto; discriminate. Qed.
-
-Lemma untagged_map_inv : forall i kvs, untagged (NMap i kvs) = true ->
-  forall kv, In kv kvs -> untagged (snd kv) = true.
+Lemma py_eq_comm : forall x y, py_eq x y = py_eq y x.
 Proof.
-  intros i kvs H. simpl in H. destruct (tag i); [discriminate|].
-  induction kvs as [|x r IH]; simpl; intros kv Hin; [contradiction|].
-  apply andb_true_iff in H; destruct H as [H Hr].
-  apply andb_true_iff in H; destruct H as [_ Hv].
-  destruct Hin as [->|Hin]; auto.
+  intros x y. destruct (py_eq x y) eqn:E1, (py_eq y x) eqn:E2; auto.
+  - pose proof (py_eq_eucl x y x E1 (py_eq_refl x)). congruence.
+  - pose proof (py_eq_eucl y x y E2 (py_eq_refl y)). congruence.
 Qed.
 
-Lemma untagged_seq_inv : forall i els, untagged (NSeq i els) = true ->
-  forall x, In x els -> untagged x = true.
-Proof.
-  intros i els H. simpl in H. destruct (tag i); [discriminate|].
-  induction els as [|y r IH]; simpl; intros x Hin; [contradiction|].
-  apply andb_true_iff in H; destruct H as [Hy Hr].
-  destruct Hin as [->|Hin]; auto.
-Qed.
+Lemma opt_str_tag_eqb : forall a b, opt_str_eqb a b = tag_eqb a b.
+Proof. intros [x|] [y|]; reflexivity. Qed.
 
 (* unfolding the nested fixpoints into list functions *)
-Definition lookm (kv : node * node) (kvs' : list (node * node)) : bool :=
-  match find (fun kv' => node_eq (fst kv) (fst kv')) kvs' with
-  | Some kv' => node_eq (snd kv) (snd kv')
+Definition lookv (f : node -> node -> bool) (kv : node * node) (kvs' : list (node * node)) : bool :=
+  match map_get (fst kv) kvs' with
+  | Some v' => f (snd kv) v'
   | None => false
   end.
 
-Lemma node_eq_map : forall i kvs j kvs',
-  node_eq (NMap i kvs) (NMap j kvs') =
-  Nat.eqb (List.length kvs) (List.length kvs') && forallb (fun kv => lookm kv kvs') kvs.
+Lemma val_eq_map : forall i kvs j kvs',
+  val_eq (NMap i kvs) (NMap j kvs') =
+  tag_eqb (tag i) (tag j) &&
+  (Nat.eqb (List.length kvs) (List.length kvs') && forallb (fun kv => lookv val_eq kv kvs') kvs).
 Proof.
-  intros. simpl. f_equal.
-  induction kvs as [|kv r IH]; simpl; auto. rewrite IH. f_equal. clear IH.
-  unfold lookm. induction kvs' as [|kv' r' IH']; simpl; auto.
-  destruct (node_eq (fst kv) (fst kv')); auto.
+  intros. simpl. rewrite opt_str_tag_eqb. reflexivity.
 Qed.
 
 Lemma data_eq_map : forall i kvs j kvs',
@@ -63,10 +51,19 @@ Proof.
   intros. reflexivity.
 Qed.
 
-Lemma node_eq_seq : forall i els j els', node_eq (NSeq i els) (NSeq j els') = forall2b node_eq els els'.
+Lemma forall2b_length {A} (f : A -> A -> bool) : forall l l', forall2b f l l' = true -> List.length l = List.length l'.
 Proof.
-  intros. simpl. revert els'. induction els as [|x r IH]; destruct els'; simpl; auto.
-  rewrite IH. reflexivity.
+  induction l as [|x r IH]; destruct l'; simpl; intros H; try discriminate; auto.
+  apply andb_true_iff in H. destruct H as [_ H]. f_equal. auto.
+Qed.
+
+Lemma val_eq_seq : forall i els j els',
+  val_eq (NSeq i els) (NSeq j els') = tag_eqb (tag i) (tag j) && forall2b val_eq els els'.
+Proof.
+  intros. simpl. rewrite opt_str_tag_eqb. f_equal.
+  revert els'. induction els as [|x r IH]; destruct els' as [|y r']; simpl; auto.
+  rewrite <- IH. change (Nat.eqb (S (List.length r)) (S (List.length r'))) with (Nat.eqb (List.length r) (List.length r')).
+  destruct (Nat.eqb (List.length r) (List.length r')); simpl; auto. rewrite andb_false_r. reflexivity.
 Qed.
 
 Lemma data_eq_seq : forall i els j els',
@@ -83,22 +80,35 @@ Proof.
   intros. reflexivity.
 Qed.
 
-(* first match = some match, in a mapping with unique keys *)
-Lemma lookm_exists : forall kv kvs',
+Lemma val_eq_set : forall i els j els',
+  val_eq (NSet i els) (NSet j els') = tag_eqb (tag i) (tag j) && node_eq (NSet i els) (NSet j els').
+Proof. intros. simpl. rewrite opt_str_tag_eqb. reflexivity. Qed.
+
+Lemma val_eq_leaf : forall i v j w,
+  val_eq (NLeaf i v) (NLeaf j w) = tag_eqb (tag i) (tag j) && py_eq v w.
+Proof.
+  intros. simpl. rewrite opt_str_tag_eqb. unfold leaf_eq, is_tagged.
+  destruct (tag i), (tag j); simpl; reflexivity.
+Qed.
+
+(* `key in rhs and same(val, rhs[key])` = some item with an equal key holds the
+   same data, in a mapping with unique keys *)
+Lemma lookv_exists : forall kv kvs',
   plain_leaf (fst kv) = true ->
   forallb (fun kv' => plain_leaf (fst kv')) kvs' = true ->
   nodup_vals (map (fun kv' => leaf_value (fst kv')) kvs') = true ->
-  (forall kv', In kv' kvs' -> node_eq (snd kv) (snd kv') = data_eq (snd kv) (snd kv')) ->
-  lookm kv kvs' =
+  (forall kv', In kv' kvs' -> val_eq (snd kv) (snd kv') = data_eq (snd kv) (snd kv')) ->
+  lookv val_eq kv kvs' =
   existsb (fun kv' => py_eq (leaf_value (fst kv)) (leaf_value (fst kv')) && data_eq (snd kv) (snd kv')) kvs'.
 Proof.
-  intros kv kvs' Hk. unfold lookm.
+  intros kv kvs' Hk. unfold lookv, map_get.
   induction kvs' as [|kv' r IH]; simpl; intros Hp Hn Hv; auto.
   apply andb_true_iff in Hp; destruct Hp as [Hk' Hr].
   apply andb_true_iff in Hn; destruct Hn as [Hfresh Hn].
-  rewrite (node_eq_plain _ _ Hk Hk').
+  rewrite (node_eq_plain _ _ Hk' Hk).
   change (key_val (fst kv)) with (leaf_value (fst kv)).
   change (key_val (fst kv')) with (leaf_value (fst kv')).
+  rewrite (py_eq_comm (leaf_value (fst kv')) (leaf_value (fst kv))).
   destruct (py_eq (leaf_value (fst kv)) (leaf_value (fst kv'))) eqn:E; simpl.
   - rewrite (Hv kv' (or_introl eq_refl)).
     destruct (data_eq (snd kv) (snd kv')); simpl; auto.
@@ -119,39 +129,33 @@ Proof.
   rewrite (H x (or_introl eq_refl)), IH; auto.
 Qed.
 
-Theorem node_eq_data_eq : forall a b,
-  wf_doc a = true -> wf_doc b = true -> untagged a = true -> untagged b = true ->
-  node_eq a b = data_eq a b.
+Lemma wf_set_tag : forall i els, wf_doc (NSet i els) = true -> tag i = None.
+Proof. intros i els H. simpl in H. destruct (tag i); auto; discriminate. Qed.
+
+Theorem val_eq_data_eq : forall a b,
+  wf_doc a = true -> wf_doc b = true -> val_eq a b = data_eq a b.
 Proof.
-  induction a as [i v|i kvs IH|i els IH|i els IH] using node_ind'; intros b Hwa Hwb Hua Hub;
-    destruct b as [j w|j kvs'|j els'|j els']; try reflexivity.
-  - simpl. unfold leaf_eq, is_tagged.
-    pose proof (untagged_tag _ Hua) as Ti. pose proof (untagged_tag _ Hub) as Tj. simpl in Ti, Tj.
-    rewrite Ti, Tj. reflexivity.
-  - rewrite node_eq_map, data_eq_map.
-    pose proof (untagged_tag _ Hua) as Ti. pose proof (untagged_tag _ Hub) as Tj. simpl in Ti, Tj.
-    rewrite Ti, Tj. simpl.
+  induction a as [i v|i kvs IH|i els IH|i els IH] using node_ind'; intros b Hwa Hwb;
+    destruct b as [j w|j kvs'|j els'|j els'];
+    try (simpl; apply andb_false_r).
+  - apply val_eq_leaf.
+  - rewrite val_eq_map, data_eq_map, <- andb_assoc.
     destruct (wf_map_inv _ _ Hwa) as [Ap [An Av]].
     destruct (wf_map_inv _ _ Hwb) as [Bp [Bn Bv]].
-    f_equal. apply forallb_ext_in. intros kv Hin.
-    apply lookm_exists; auto.
+    f_equal. f_equal. apply forallb_ext_in. intros kv Hin.
+    apply lookv_exists; auto.
     + rewrite forallb_forall in Ap. apply Ap; auto.
     + intros kv' Hin'. rewrite Forall_forall in IH. destruct (IH kv Hin) as [_ IHv].
-      apply IHv; [apply Av; auto | apply Bv; auto
-                 | exact (untagged_map_inv _ _ Hua kv Hin) | exact (untagged_map_inv _ _ Hub kv' Hin')].
-  - rewrite node_eq_seq, data_eq_seq.
-    pose proof (untagged_tag _ Hua) as Ti. pose proof (untagged_tag _ Hub) as Tj. simpl in Ti, Tj.
-    rewrite Ti, Tj. simpl.
+      apply IHv; [apply Av; auto | apply Bv; auto].
+  - rewrite val_eq_seq, data_eq_seq. f_equal.
     pose proof (wf_seq_inv _ _ Hwa) as Aw. pose proof (wf_seq_inv _ _ Hwb) as Bw.
-    pose proof (untagged_seq_inv _ _ Hua) as Au. pose proof (untagged_seq_inv _ _ Hub) as Bu.
-    clear Hwa Hwb Hua Hub Ti Tj.
-    revert els' Bw Bu. induction els as [|x r IHr]; intros els' Bw Bu; destruct els' as [|y r']; simpl; auto.
+    clear Hwa Hwb.
+    revert els' Bw. induction els as [|x r IHr]; intros els' Bw; destruct els' as [|y r']; simpl; auto.
     inversion IH; subst. f_equal.
-    + apply H1; [apply Aw | apply Bw | apply Au | apply Bu]; left; reflexivity.
-    + apply IHr; auto; intros z Hz; [apply Aw | apply Au | apply Bw | apply Bu]; right; exact Hz.
-  - rewrite node_eq_set. simpl.
-    pose proof (untagged_tag _ Hua) as Ti. pose proof (untagged_tag _ Hub) as Tj. simpl in Ti, Tj.
-    rewrite Ti, Tj. simpl. f_equal.
+    + apply H1; [apply Aw | apply Bw]; left; reflexivity.
+    + apply IHr; auto; intros z Hz; [apply Aw | apply Bw]; right; exact Hz.
+  - rewrite val_eq_set, node_eq_set. simpl.
+    rewrite (wf_set_tag _ _ Hwa), (wf_set_tag _ _ Hwb). simpl. f_equal.
     destruct (wf_set_inv _ _ Hwa) as [Ap _]. destruct (wf_set_inv _ _ Hwb) as [Bp _].
     apply forallb_ext_in. intros x Hx.
     assert (Px : plain_leaf x = true) by (rewrite forallb_forall in Ap; auto).
@@ -160,56 +164,28 @@ Proof.
     rewrite (node_eq_plain _ _ Px Py). rewrite IHr; auto.
 Qed.
 
-Lemma untagged_set_inv : forall i els, untagged (NSet i els) = true ->
-  forall x, In x els -> untagged x = true.
-Proof.
-  intros i els H. simpl in H. destruct (tag i); [discriminate|].
-  induction els as [|y r IH]; simpl; intros x Hin; [contradiction|].
-  apply andb_true_iff in H; destruct H as [Hy Hr].
-  destruct Hin as [->|Hin]; auto.
-Qed.
-
-Lemma untagged_child : forall n r c, untagged n = true -> child n r = Some c -> untagged c = true.
-Proof.
-  intros n r c Hu Hc. destruct n, r; simpl in Hc; try discriminate.
-  - destruct (assoc_key_some_in _ _ _ Hc) as [kn Hin]. exact (untagged_map_inv _ _ Hu (kn, c) Hin).
-  - apply nth_error_In in Hc. eapply untagged_seq_inv; eauto.
-  - apply find_member_some_in in Hc. eapply untagged_set_inv; eauto.
-Qed.
-
-Lemma untagged_lookup : forall l n c, untagged n = true -> lookup n l = Some c -> untagged c = true.
-Proof.
-  induction l as [|r l IH]; simpl; intros n c Hu H.
-  - inversion H; subst; auto.
-  - destruct (child n r) eqn:E; try discriminate.
-    eapply IH; [eapply untagged_child; eauto | exact H].
-Qed.
-
 (* SAME / CHANGE entries of a positional diff, against the spec's data equality *)
 From YP Require Import DiffPos.
 
 Lemma positional_same_change :
   forall path_eq cfg L R es,
     positional cfg -> wf_doc L = true -> wf_doc R = true ->
-    untagged L = true -> untagged R = true ->
     compare_to path_eq cfg L R = Ok es ->
     Forall (fun e => same_ok e /\ change_ok e) es.
 Proof.
-  intros path_eq cfg L R es Hp HL HR UL UR H.
+  intros path_eq cfg L R es Hp HL HR H.
   pose proof (compare_to_good path_eq cfg Hp L R HL HR es H) as G.
   eapply Forall_impl; [ | exact G].
   intros e [[TL TR] [S C]].
   assert (B : e_action e = ASame \/ e_action e = AChange ->
-              node_eq (e_lhs e) (e_rhs e) = data_eq (e_lhs e) (e_rhs e)).
+              val_eq (e_lhs e) (e_rhs e) = data_eq (e_lhs e) (e_rhs e)).
   { intros HA.
     assert (HLft : has_left e = true) by (unfold has_left; destruct HA as [-> | ->]; reflexivity).
     assert (HRgt : has_right e = true) by (unfold has_right; destruct HA as [-> | ->]; reflexivity).
     specialize (TL HLft). specialize (TR HRgt).
-    apply node_eq_data_eq.
+    apply val_eq_data_eq.
     - exact (wf_lookup _ _ _ HL TL).
-    - exact (wf_lookup _ _ _ HR TR).
-    - exact (untagged_lookup _ _ _ UL TL).
-    - exact (untagged_lookup _ _ _ UR TR). }
+    - exact (wf_lookup _ _ _ HR TR). }
   split.
   - intros HA. rewrite <- (B (or_introl HA)). exact (S HA).
   - intros HA. rewrite <- (B (or_intror HA)). exact (C HA).
@@ -218,50 +194,29 @@ Qed.
 Lemma positional_same_equal :
   forall path_eq cfg L R es,
     positional cfg -> wf_doc L = true -> wf_doc R = true ->
-    untagged L = true -> untagged R = true ->
     compare_to path_eq cfg L R = Ok es -> Forall same_ok es.
 Proof.
-  intros path_eq cfg L R es Hp HL HR UL UR H.
-  pose proof (positional_same_change path_eq cfg L R es Hp HL HR UL UR H) as G.
+  intros path_eq cfg L R es Hp HL HR H.
+  pose proof (positional_same_change path_eq cfg L R es Hp HL HR H) as G.
   eapply Forall_impl; [ | exact G]. intros e [S _]; exact S.
 Qed.
 
 Lemma positional_change_differs :
   forall path_eq cfg L R es,
     positional cfg -> wf_doc L = true -> wf_doc R = true ->
-    untagged L = true -> untagged R = true ->
     compare_to path_eq cfg L R = Ok es -> Forall change_ok es.
 Proof.
-  intros path_eq cfg L R es Hp HL HR UL UR H.
-  pose proof (positional_same_change path_eq cfg L R es Hp HL HR UL UR H) as G.
+  intros path_eq cfg L R es Hp HL HR H.
+  pose proof (positional_same_change path_eq cfg L R es Hp HL HR H) as G.
   eapply Forall_impl; [ | exact G]. intros e [_ C]; exact C.
 Qed.
 
-(* ---- refutation witnesses (known finding F1: tags) ---- *)
+(* ---- the former refutation witnesses of finding F1 (tags), now positive ---- *)
 Definition dflt_cfg : dcfg := mkdcfg false [] [] None None None None.
 
 Definition tagged_b (o : N) : node := NLeaf (mkinfo o None false (Some "x"%string)) (POther "b"%string).
-
-Lemma change_differs_refuted_witness :
-  exists L R es, wf_doc L = true /\ wf_doc R = true /\
-    compare_to path_eq_real dflt_cfg L R = Ok es /\ ~ Forall change_ok es.
-Proof.
-  exists (tagged_b 1), (tagged_b 2), [mkentry AChange ""%string [] (tagged_b 1) (tagged_b 2)].
-  repeat split; try (vm_compute; reflexivity).
-  intros F. inversion F as [|e r Hc _]; subst. specialize (Hc eq_refl). vm_compute in Hc. discriminate.
-Qed.
 
 Definition tmap (o k v : N) (t : string) : node :=
   NMap (mkinfo o None true (Some t))
        [(NLeaf (mkinfo k None false None) (PStr "x"%string), NLeaf (mkinfo v None false None) (PInt 1))].
 Definition seq1 (o : N) (x : node) : node := NSeq (mkinfo o None true None) [x].
-
-Lemma same_equal_refuted_witness :
-  exists L R es, wf_doc L = true /\ wf_doc R = true /\
-    compare_to path_eq_real dflt_cfg L R = Ok es /\ ~ Forall same_ok es.
-Proof.
-  exists (seq1 0 (tmap 1 2 3 "a")), (seq1 4 (tmap 5 2 3 "b")),
-         [mkentry ASame "[0]"%string [RIdx 0] (tmap 1 2 3 "a") (tmap 5 2 3 "b")].
-  repeat split; try (vm_compute; reflexivity).
-  intros F. inversion F as [|e r Hc _]; subst. specialize (Hc eq_refl). vm_compute in Hc. discriminate.
-Qed.
